@@ -166,14 +166,7 @@ type phGuards struct {
 
 func resolvePH(p *load.Program, r *kit.Report, rule string, ph *ssa.Function) *phGuards {
 	g := &phGuards{}
-	for _, prm := range ph.Params {
-		if prm.Name() == "header" {
-			g.header = prm
-		}
-	}
-	if g.header == nil && len(ph.Params) == 3 {
-		g.header = ph.Params[2]
-	}
+	g.header = prmOfType(ph, "wire.BlockHeader", 0)
 	if g.header == nil {
 		r.Unknown(rule, "ProcessHeader/anchor:header-param", "-", "header parameter not found")
 		return nil
